@@ -297,4 +297,25 @@ theorem rect_touching (i j : String) (a b c d e : α) (y : α) (hy : min b d ≤
   simp only [rect_contains_iff]
   exact ⟨⟨⟨min_le_right _ _, le_max_right _ _⟩, hy⟩, ⟨⟨min_le_left _ _, le_max_left _ _⟩, hy⟩⟩
 
+
+/-! ## Containment as an order -/
+
+/-- a region the plugin can hold is reported to contain itself (so re-sending a region's own
+geometry as an update is never refused) -/
+theorem containsRegion_refl (A : Region α) (hA : Region.Proper A) : A.containsRegion A = true :=
+  (containsRegion_iff A A hA).mpr (fun _ _ h => h)
+
+/-- reported containment is transitive -/
+theorem containsRegion_trans (A B C : Region α) (hC : Region.Proper C)
+    (h1 : A.containsRegion B = true) (h2 : B.containsRegion C = true) : A.containsRegion C = true :=
+  (containsRegion_iff A C hC).mpr
+    (fun x y h => containsRegion_sound A B h1 x y (containsRegion_sound B C h2 x y h))
+
+/-- mutual containment means the same set of points -/
+theorem containsRegion_antisymm (A B : Region α)
+    (h1 : A.containsRegion B = true) (h2 : B.containsRegion A = true) (x y : α) :
+    A.containsPoint x y = B.containsPoint x y := by
+  rw [Bool.eq_iff_iff]
+  exact ⟨containsRegion_sound B A h2 x y, containsRegion_sound A B h1 x y⟩
+
 end ERP.C17
